@@ -10,7 +10,7 @@ COMMON_ASSUME = [
 
 PROPS = {
   'C16': {
-    'rule': 'cases = (determinate pthread program: 1..6 threads created with NULL / default / stack-size attribute objects, returning or calling pthread_exit, all running one generated list of up to 20 phases: lock-protected counters on three mutexes (PTHREAD_MUTEX_INITIALIZER first used by several threads at once, or pthread_mutex_init with a default attribute object), trylock loops, barrier phases with serial-thread count, condvar turnstile (one condvar + broadcast or per-thread condvars + signal) and gate (broadcast, or T-1 signals on the gate's own condvar), spin-lock sections (spin_lock or a spin_trylock retry loop), once with three routines, four keys (three with destructors that ignore NULL), child threads created with no / default / stack-size / detached attributes and joined, awaited, or detached by their creator with pthread_detach, attribute getters, sched_yield, usleep / nanosleep (rem NULL or the request) / sleep(0), pthread_self/equal, destroy / key_delete of every object at the end; the return codes of the lock, unlock, wait, signal, init and destroy calls are part of the printed result; W in 1..8; schedule bytes for the controlled run); '
+    'rule': 'cases = (determinate pthread program: 1..6 threads created with NULL / default / stack-size attribute objects, returning or calling pthread_exit, all running one generated list of up to 20 phases: lock-protected counters on three mutexes (PTHREAD_MUTEX_INITIALIZER first used by several threads at once, or pthread_mutex_init with a default attribute object), trylock loops, barrier phases with serial-thread count, condvar turnstile (one condvar + broadcast or per-thread condvars + signal) and gate (broadcast, or T-1 signals on a condvar of its own), spin-lock sections (spin_lock or a spin_trylock retry loop), once with three routines, four keys (three with destructors that ignore NULL), child threads created with no / default / stack-size / detached attributes and joined, awaited, or detached by their creator with pthread_detach, attribute getters, sched_yield, usleep / nanosleep (rem NULL or the request) / sleep(0), pthread_self/equal, destroy / key_delete of every object at the end; the return codes of the lock, unlock, wait, signal, init and destroy calls are part of the printed result; W in 1..8; schedule bytes for the controlled run); '
             'each case is run on system pthreads (reference) and in four redirected ways: LD_PRELOAD of libmyth-dl, link-time wrapped with pass-through, link-time wrapped under a controlled schedule, link-time wrapped free running; non-trivial = the program uses >= 3 API groups and W >= 2; distinct = hash of (program bytes, W)',
     'assumptions': ['programs are determinate by construction; stdout (which includes a flag word over the return codes of successful-by-construction calls) and exit status are compared', 'a wall-clock timeout of a free-running variant is inconclusive; DEADLOCK / STUCK verdicts of the controlled variant are violations', 'spin-lock holders never yield (user-level threads)'],
     'stages': [
